@@ -89,6 +89,39 @@ CHECKS = {
         note=A_COMMON + " Known finding C13-1 (= C08-1): unified() registers namespaces in a source bundle. Repeatability across processes is not claimed.",
         technique="Lean 4 frame proofs (exporters as pure/allocating heap functions) + before/after observation oracle",
         design="§4.C13"),
+    "C01": dict(
+        text="Lean: encodeJson/decodeJson transcribe provjson.py on JSON trees; per-value round-trip theorems for every value kind "
+             "(c01_int, c01_float, c01_datetime, c01_uri, c01_str, c01_bool, c01_qname, c01_lang_literal, c01_typed_literal): decoding the "
+             "encoded value and storing it again yields the same value at URI level with the same kind/datatype/language, under the "
+             "explicit hypothesis that the names it mentions are readable in the reading scope (ReadsAs / StdNames, discharged for "
+             "reachable managers by C03). Tied to /repo by three channels on every generated document: writer tree, reader on the same "
+             "text, strict end-to-end comparison for all json.dump option sets.",
+        note=A_COMMON + " Record/bundle multiplicity (anonymous-id allocation, arrays for repeated identifiers) is mirrored in the model "
+             "and compared, not yet proved. Known finding C01-1: names not readable in their bundle's scope (C03-1) change URI. "
+             "A-JSONTEXT, A-LEX assumed.",
+        technique="Lean 4 per-value round-trip proofs + writer/reader/end-to-end differential correspondence",
+        design="§4.C01"),
+    "C10": dict(
+        text="An independent PROV-JSON reader written in Lean from the specification (Prov/JsonSpec.lean; own tables, own name resolution) "
+             "is executed on the text the library really emits (all json option sets) and must recover the source's strict content. "
+             "Lean obligations T6: the transcribed spec tables equal the code's regenerated tables (t6_json_kind_keys, _ref_keys, "
+             "_time_keys, _literal_types, _attribute_ids); the spec reader inverts the writer on name-free values (c10_json_value_*).",
+        note=A_COMMON + " The PROV-XML half of C10 is served by the C02 check's spec channel once built; until then only PROV-JSON is claimed "
+             "here. The spec reader is a hand transcription (trusted reading of the submission). Known finding C10-1 = C01-1.",
+        technique="Lean 4 specification reader run on real output + table-equality obligations by kernel evaluation",
+        design="§4.C10"),
+    "C11": dict(
+        text="Foreign PROV-JSON (specification-driven generator: every literal spelling, wrapped singletons, multi-entity memberships, "
+             "record arrays, bundle prefix blocks; plus 7 single-point mutation kinds of the 398 corpus files) is loaded by the library, "
+             "by the Lean model of its reader (correspondence) and by the Lean specification reader: the loaded document must equal what "
+             "the text states (nothing dropped/invented) and be stable under write+load. Lean: scalar spellings agree between library "
+             "reader and spec reader (c11_scalar_*), decoder failures are classified (c11_value_errors_classified); stability = C01 applied "
+             "to the loaded document.",
+        note=A_COMMON + " PROV-XML foreign texts and the JSON->XML cross-format leg are covered by the C02 machinery. Attributes that the text "
+             "gives several numeric values equal in value but different in kind (1/true/1.0) are compared by value (Python set semantics, "
+             "excluded by the property).",
+        technique="Lean 4 spec reader + model reader vs library on foreign texts; case-analysis proofs on the value decoder",
+        design="§4.C11"),
 }
 
 NOT_APPLICABLE = []
